@@ -321,7 +321,7 @@ class ConvexPolygon(GeoBody):
         return hash(
             (
                 "ConvexPolygon",
-                round(self._get_point_hash_sum(), SIG_FIGURES),
+                round(self._get_point_hash_sum(), get_sig_figures()),
                 hash(self.plane) + hash(-self.plane),
                 hash(self.plane) * hash(-self.plane),
             )
@@ -341,11 +341,11 @@ class ConvexPolygon(GeoBody):
         return hash(
             (
                 "ConvexPolygon",
-                round(self._get_point_hash_sum(), SIG_FIGURES - 5),
-                round(n[0], SIG_FIGURES),
-                round(n[1], SIG_FIGURES),
-                round(n[2], SIG_FIGURES),
-                round(n * self.plane.p.pv(), SIG_FIGURES),
+                round(self._get_point_hash_sum(), get_sig_figures() - 5),
+                round(n[0], get_sig_figures()),
+                round(n[1], get_sig_figures()),
+                round(n[2], get_sig_figures()),
+                round(n * self.plane.p.pv(), get_sig_figures()),
             )
         )
 
